@@ -295,7 +295,7 @@ static boost::asio::ssl::context& ServerCtx()
 }
 
 // client side: plain OpenSSL on the other end of the socketpair; one SSL_write per chunk, then close
-static void ClientThread(int fd, std::vector<std::string> chunks)
+static void ClientThread(int fd, std::vector<std::string> chunks, bool abrupt)
 {
 	SSL_CTX *c = SSL_CTX_new(TLS_client_method());
 	SSL *s = SSL_new(c);
@@ -304,7 +304,8 @@ static void ClientThread(int fd, std::vector<std::string> chunks)
 		for (auto& ch : chunks) {
 			if (!ch.empty()) SSL_write(s, ch.data(), (int)ch.size());
 		}
-		SSL_shutdown(s);
+		// clean: close_notify, then the transport is closed; abrupt: the transport is closed in the middle of the TLS session
+		if (!abrupt) SSL_shutdown(s);
 	}
 	SSL_free(s);
 	SSL_CTX_free(c);
@@ -361,7 +362,7 @@ VOP(nss_read)
 	std::vector<std::string> chunks = SplitChunks(a.pos.at(0));
 	int sv[2];
 	if (socketpair(AF_UNIX, SOCK_STREAM, 0, sv) != 0) throw std::runtime_error("socketpair");
-	std::thread client(ClientThread, sv[1], chunks);
+	std::thread client(ClientThread, sv[1], chunks, a.str("close", "clean") == "abrupt");
 	std::string line;
 	size_t rest = 0;
 	{
@@ -399,6 +400,65 @@ VOP(nss_read)
 	Out("nss_read " + line + " rest=" + std::to_string(rest));
 }
 
+// nss_msg max=<n> mode=sync|co close=clean|abrupt <hex>[,<hex>...]: what JsonRpcConnection::HandleIncomingMessages does with the
+// stream - JsonRpc::ReadMessage, then JsonRpc::DecodeMessage (a message that does not decode is dropped, the connection goes on) -
+// until ReadMessage throws.  A message is handed over complete or not at all.
+static void Canon(const Value& v, std::string& out, int depth);
+
+VOP(nss_msg)
+{
+	long max = a.num("max", -1);
+	bool co = a.str("mode", "sync") == "co";
+	std::vector<std::string> chunks = SplitChunks(a.pos.at(0));
+	int sv[2];
+	if (socketpair(AF_UNIX, SOCK_STREAM, 0, sv) != 0) throw std::runtime_error("socketpair");
+	std::thread client(ClientThread, sv[1], chunks, a.str("close", "clean") == "abrupt");
+	std::string items, msgs, end = "short";
+	auto loop = [&](auto&& readOne) {
+		for (int guard = 0; guard < 100000; guard++) {
+			String js;
+			try {
+				js = readOne();
+			} catch (const std::invalid_argument&) {
+				end = "err";
+				break;
+			} catch (const std::exception&) {
+				end = "short";
+				break;
+			}
+			if (!items.empty()) { items += ","; msgs += ";"; }
+			items += HexEnc(js.GetData());
+			try {
+				Dictionary::Ptr d = JsonRpc::DecodeMessage(js);
+				std::string c;
+				Canon(d, c, 0);
+				msgs += c;
+			} catch (const std::exception&) {
+				msgs += "E";
+			}
+		}
+	};
+	{
+		boost::asio::io_context io;
+		auto stream = Shared<AsioTlsStream>::Make(io, ServerCtx());
+		stream->lowest_layer().assign(boost::asio::ip::tcp::v4(), sv[0]);
+		if (!co) {
+			stream->next_layer().handshake(boost::asio::ssl::stream_base::server);
+			loop([&]() { return JsonRpc::ReadMessage(stream, (ssize_t)max); });
+		} else {
+			IoEngine::SpawnCoroutine(io, [&](boost::asio::yield_context yc) {
+				stream->next_layer().async_handshake(boost::asio::ssl::stream_base::server, yc);
+				loop([&]() { return JsonRpc::ReadMessage(stream, yc, (ssize_t)max); });
+			});
+			io.run();
+		}
+		boost::system::error_code ec;
+		stream->lowest_layer().close(ec);
+	}
+	client.join();
+	Out("nss_msg items=" + (items.empty() ? std::string(".") : items) + " msgs=" + (msgs.empty() ? std::string(".") : msgs) + " end=" + end);
+}
+
 // ---------------------------------------------------------------------------------------------------------
 // JSON: script syntax of values  n | t | f | i<dec> | d<16 hex digits of the binary64> | "<hex>" | [v,v] | {<hexkey>:v,...}
 struct VParser {
@@ -434,7 +494,7 @@ struct VParser {
 
 static std::string HexOrEmpty(const std::string& s) { return s.empty() ? "" : HexEnc(s); }
 
-static void Canon(const Value& v, std::string& out, int depth = 0)
+static void Canon(const Value& v, std::string& out, int depth)
 {
 	switch (v.GetType()) {
 		case ValueEmpty: out += "n"; return;
@@ -475,7 +535,7 @@ VOP(js_rt)
 		String enc = JsonEncode(v);
 		Value back = JsonDecode(enc);
 		std::string c;
-		Canon(back, c);
+		Canon(back, c, 0);
 		Out("js_rt enc=" + (a.num("cmp", 1) ? HexEnc(enc.GetData()) : std::string("~")) + " dec=" + c);
 	} catch (const std::exception&) {
 		Out("js_rt err");
@@ -489,7 +549,7 @@ VOP(js_dec)
 	try {
 		Value v = JsonDecode(String(in));
 		std::string c;
-		Canon(v, c);
+		Canon(v, c, 0);
 		Out("js_dec ok " + c);
 	} catch (const std::exception&) {
 		Out("js_dec err");
@@ -503,7 +563,7 @@ VOP(js_msg)
 	try {
 		Dictionary::Ptr d = JsonRpc::DecodeMessage(String(in));
 		std::string c;
-		Canon(d, c);
+		Canon(d, c, 0);
 		Out("js_msg ok " + c);
 	} catch (const std::exception&) {
 		Out("js_msg err");
